@@ -11,4 +11,5 @@ mkdir -p bin .cache evidence replays
 # machinery self-test: the repository's own tests must pass on the instrumented copy
 ./bin/check selftest-preservation
 ./bin/check selftest-race
+./bin/check selftest-fsnotify || echo "setup: warning: fsnotify calibration could not be confirmed here (inotify unavailable?)"
 echo "setup: ok"
